@@ -62,8 +62,9 @@ pub enum GroupKind {
 }
 
 const LIT_CHARS: &[&str] = &[
-    "a", "b", "c", "x", "y", "A", "B", "0", "1", "_", " ", "-", "\\.", "k", "K", "s", "é", "ß", "☃", "𝄞", "\\+", "\\(", "z",
+    "a", "b", "c", "x", "y", "A", "B", "0", "1", "_", " ", "-", "\\.", "k", "K", "s", "é", "ß", "☃", "𝄞", "\\+", "\\(", "z", "É", "Δ", "Ж",
 ];
+const UNI_LIT: &[&str] = &["é", "É", "Δ", "δ", "Ж", "ß", "☃"];
 const ASCII_LIT: usize = 15; // prefix of LIT_CHARS that is ASCII (through "s")
 
 const CLASS_ATOMS: &[&str] = &[
@@ -97,7 +98,12 @@ fn gen_lit(t: &mut Tape, o: &ReOpts) -> Re {
     let n = 1 + t.small(3);
     let mut s = String::new();
     for _ in 0..n {
-        let limit = if o.allow_unicode && t.chance(1, 5) { LIT_CHARS.len() } else { ASCII_LIT };
+        let uni = o.allow_unicode && t.chance(1, 5);
+        let limit = if uni { LIT_CHARS.len() } else { ASCII_LIT };
+        if uni && t.chance(1, 2) {
+            s.push_str(*t.pick(UNI_LIT));
+            continue;
+        }
         // bias toward the first three letters so haystacks collide
         let i = if t.chance(1, 2) { t.below(3) } else { t.below(limit) };
         s.push_str(LIT_CHARS[i]);
@@ -368,7 +374,7 @@ pub fn literal_alphabet(h: &Hir, out: &mut Vec<u8>) {
 const FILLER: &[u8] = b"abcxy AB01_-.kKsz";
 const SPECIAL_PIECES: &[&[u8]] = &[
     b"\r", b"\0", b"\xFF", b"\xC3", b"\xE2\x98", b"\t", b"  ", "é".as_bytes(), "ß".as_bytes(), "☃".as_bytes(), "𝄞".as_bytes(),
-    "ſ".as_bytes(), "K".as_bytes(), b"\x0B", b"\x0C", "\u{85}".as_bytes(), "\u{2028}".as_bytes(),
+    "ſ".as_bytes(), "K".as_bytes(), "É".as_bytes(), "δ".as_bytes(), "Δ".as_bytes(), "ж".as_bytes(), b"\x0B", b"\x0C", "\u{85}".as_bytes(), "\u{2028}".as_bytes(),
 ];
 
 fn filler(t: &mut Tape, alpha: &[u8], max: usize) -> Vec<u8> {
@@ -388,10 +394,22 @@ fn mutate(t: &mut Tape, s: &mut Vec<u8>, alpha: &[u8]) {
     if s.is_empty() {
         return;
     }
-    match t.below(6) {
+    match t.below(7) {
         0 => {
             let i = t.below(s.len());
             s.remove(i);
+        }
+        6 => {
+            // swap the case of the first non-ASCII cased letter (smart case / (?i) over non-ASCII)
+            const PAIRS: &[(&str, &str)] = &[("É", "é"), ("Δ", "δ"), ("Ж", "ж")];
+            for (u, l) in PAIRS {
+                for (from, to) in [(u.as_bytes(), l.as_bytes()), (l.as_bytes(), u.as_bytes())] {
+                    if let Some(i) = s.windows(from.len()).position(|w| w == from) {
+                        s[i..i + from.len()].copy_from_slice(to);
+                        return;
+                    }
+                }
+            }
         }
         1 => {
             let i = t.below(s.len() + 1);
